@@ -27,10 +27,10 @@ Cmp(op, l, r) == [k |-> "cmp", op |-> op, l |-> l, r |-> r]
 Contains(l, r) == [k |-> "contains", l |-> l, r |-> r]
 In(l, r)     == [k |-> "in", l |-> l, r |-> r]
 
-Text(s)      == [k |-> "text", v |-> s, lm |-> "", rm |-> ""]
+NText(s)      == [k |-> "text", v |-> s, lm |-> "", rm |-> ""]
 Raw(s)       == [k |-> "raw", v |-> s, wc |-> <<"", "", "", "">>]
 Comment(kind, s) == [k |-> "comment", kind |-> kind, v |-> s, wc |-> W0]
-Out(e)       == [k |-> "out", e |-> e, wc |-> W0]
+NOut(e)       == [k |-> "out", e |-> e, wc |-> W0]
 Echo(e)      == [k |-> "echo", e |-> e, wc |-> W0]
 Assign(n, e) == [k |-> "assign", n |-> n, e |-> e, wc |-> W0]
 Capture(n, b) == [k |-> "capture", n |-> n, body |-> b, wc |-> W0, ewc |-> W0]
